@@ -74,7 +74,7 @@ pub fn vx_drop_done_tx<T>(x: Option<Sender<T>>, Tracked(w): Tracked<&mut World>)
         x is None ==> trace(*final(w)) == trace(*old(w)),
         x is Some ==> trace(*final(w)) == trace(*old(w)).push(Ev::DoneTxDrop),
         //  after `cell.take()` the cell is empty whatever it held
-        done_tx_gone(*final(w)), ticket(*final(w)) == ticket(*old(w)), final(w).n == old(w).n,
+        done_tx_gone(*final(w)), ticket(*final(w)) == ticket(*old(w)), final(w).n == old(w).n, final(w).es == old(w).es,
 { unimplemented!() }
 
 /// the result (error) channel of try_for_each_concurrent*: `result_tx.send(e)` (R4: renamed `send_err` by receiver)
